@@ -5,6 +5,21 @@ package main
 func markShared() {
 	I.shared = map[*value]bool{}
 	I.sharedMaps = map[*omap]bool{}
+	for g, cell := range I.globals {
+		if g.Pkg != I.mainPkg {
+			continue
+		}
+		I.shared[cell] = true
+		markSharedFrom(*cell)
+	}
+}
+
+// markSharedFrom adds everything reachable from v to the shared set (package-level variables
+// at start-up; later, objects handed to a package-level sync.Pool).
+func markSharedFrom(root value) {
+	if I.shared == nil {
+		return
+	}
 	seen := map[interface{}]bool{}
 	var walk func(v value)
 	walk = func(v value) {
@@ -52,13 +67,7 @@ func markShared() {
 			}
 		}
 	}
-	for g, cell := range I.globals {
-		if g.Pkg != I.mainPkg {
-			continue
-		}
-		I.shared[cell] = true
-		walk(*cell)
-	}
+	walk(root)
 }
 
 func noteWrite(fr *frame, addr *value) {
